@@ -102,7 +102,7 @@ func deepEq(w, g reflect.Value, path string) (bool, string) {
 			}
 			return deepEq(w.Elem(), g.Elem(), path)
 		}
-	case reflect.Slice:
+	case reflect.Slice, reflect.Array:
 		if w.Len() != g.Len() { // nil == empty
 			return false, fmt.Sprintf("%s: len %d vs %d", path, w.Len(), g.Len())
 		}
@@ -115,6 +115,19 @@ func deepEq(w, g reflect.Value, path string) (bool, string) {
 		if w.Len() != g.Len() { // nil == empty
 			return false, fmt.Sprintf("%s: map len %d vs %d", path, w.Len(), g.Len())
 		}
+		if keysHavePointers(w) || keysHavePointers(g) {
+			// pointer identity cannot survive: keys are matched by what they point to
+			wk, gk := sortedKeys(w), sortedKeys(g)
+			for i := range wk {
+				if ok, why := deepEq(wk[i], gk[i], path+"[key "+clip(render(wk[i], false), 40)+"]"); !ok {
+					return false, why
+				}
+				if ok, why := deepEq(w.MapIndex(wk[i]), g.MapIndex(gk[i]), path+"["+clip(render(wk[i], false), 40)+"]"); !ok {
+					return false, why
+				}
+			}
+			break
+		}
 		for _, k := range sortedKeys(w) {
 			gv := g.MapIndex(k)
 			if !gv.IsValid() {
@@ -126,9 +139,7 @@ func deepEq(w, g reflect.Value, path string) (bool, string) {
 		}
 	case reflect.Struct:
 		for i := 0; i < w.NumField(); i++ {
-			if w.Type().Field(i).PkgPath != "" {
-				continue
-			}
+			// unexported fields are compared too (readable through reflection)
 			if ok, why := deepEq(w.Field(i), g.Field(i), path+"."+w.Type().Field(i).Name); !ok {
 				return false, why
 			}
@@ -160,12 +171,42 @@ func sortedKeys(m reflect.Value) []reflect.Value {
 		rs[i] = render(k, false)
 		idx[i] = i
 	}
+	// ties (pointer keys whose pointees are equal) are broken by the value
+	dup := map[string]bool{}
+	tie := false
+	for _, r := range rs {
+		if dup[r] {
+			tie = true
+		}
+		dup[r] = true
+	}
+	if tie {
+		for i, k := range ks {
+			rs[i] += "\x00" + render(m.MapIndex(k), true)
+		}
+	}
 	sort.Slice(idx, func(a, b int) bool { return rs[idx[a]] < rs[idx[b]] })
 	out := make([]reflect.Value, len(ks))
 	for i, j := range idx {
 		out[i] = ks[j]
 	}
 	return out
+}
+
+// keysHavePointers: the map has a pointer key type, or an interface key type
+// and a key that holds a pointer.
+func keysHavePointers(m reflect.Value) bool {
+	switch m.Type().Key().Kind() {
+	case reflect.Ptr:
+		return true
+	case reflect.Interface:
+		for _, k := range m.MapKeys() {
+			if !k.IsNil() && k.Elem().Kind() == reflect.Ptr {
+				return true
+			}
+		}
+	}
+	return false
 }
 
 // ---------------------------------------------------------------------------
@@ -237,8 +278,8 @@ func renderTo(b *strings.Builder, v reflect.Value, withType bool) {
 			return
 		}
 		renderTo(b, v.Elem(), true)
-	case reflect.Slice:
-		if v.IsNil() {
+	case reflect.Slice, reflect.Array:
+		if v.Kind() == reflect.Slice && v.IsNil() {
 			b.WriteString(tname(t) + "(nil)")
 			return
 		}
@@ -270,7 +311,7 @@ func renderTo(b *strings.Builder, v reflect.Value, withType bool) {
 		first := true
 		for i := 0; i < v.NumField(); i++ {
 			f := t.Field(i)
-			if f.PkgPath != "" || v.Field(i).IsZero() {
+			if v.Field(i).IsZero() {
 				continue
 			}
 			if !first {
@@ -311,11 +352,11 @@ func shape(v reflect.Value, b *strings.Builder, statics bool) {
 		b.WriteString("i(")
 		shape(v.Elem(), b, true)
 		b.WriteString(")")
-	case reflect.Slice:
+	case reflect.Slice, reflect.Array:
 		if statics {
 			b.WriteString(tname(t))
 		}
-		if v.IsNil() {
+		if v.Kind() == reflect.Slice && v.IsNil() {
 			b.WriteString("~")
 			return
 		}
@@ -373,6 +414,8 @@ func shapeOf(v any) string {
 // stats of a value tree (for the non-triviality rule and the evidence)
 type vstats struct {
 	nodes, ptrs, nilPtrs, deepPtrs, containers, ifaceSlots, structs, maxDepth int
+	nested int            // containers whose element type is a container
+	schema map[string]int // eino schema structs seen, by type name
 }
 
 func (s *vstats) walk(v reflect.Value, depth int) {
@@ -396,19 +439,31 @@ func (s *vstats) walk(v reflect.Value, depth int) {
 		if !v.IsNil() {
 			s.walk(v.Elem(), depth+1)
 		}
-	case reflect.Slice:
+	case reflect.Slice, reflect.Array:
 		s.containers++
+		if v.Type().Elem().Kind() == reflect.Slice || v.Type().Elem().Kind() == reflect.Map {
+			s.nested++
+		}
 		for i := 0; i < v.Len(); i++ {
 			s.walk(v.Index(i), depth+1)
 		}
 	case reflect.Map:
 		s.containers++
+		if v.Type().Elem().Kind() == reflect.Slice || v.Type().Elem().Kind() == reflect.Map {
+			s.nested++
+		}
 		it := v.MapRange()
 		for it.Next() {
 			s.walk(it.Value(), depth+1)
 		}
 	case reflect.Struct:
 		s.structs++
+		if isSchemaType(v.Type()) {
+			if s.schema == nil {
+				s.schema = map[string]int{}
+			}
+			s.schema[v.Type().Name()]++
+		}
 		for i := 0; i < v.NumField(); i++ {
 			if v.Type().Field(i).PkgPath == "" {
 				s.walk(v.Field(i), depth+1)
@@ -423,8 +478,9 @@ func (s *vstats) walk(v reflect.Value, depth int) {
 
 const (
 	clsOK          = "roundtrip-ok"
-	clsEncErr      = "encode-error"
-	clsDecErr      = "decode-error-after-encode-ok"
+	clsEncErr      = "encode-error"                 // loud refusal of a value outside the universe: fine
+	clsDecErr      = "decode-error-after-encode-ok" // the same, at decode
+	clsErrInside   = "error-for-supported-value"    // an error for a value inside the stated universe
 	clsDifferent   = "different"
 	clsPanicEncode = "panic-encode"
 	clsPanicDecode = "panic-decode"
@@ -436,10 +492,12 @@ type result struct {
 	typeChanged bool
 	enc         []byte
 	frame       string
+	errAt       string // "encode" / "decode" when Marshal / Unmarshal returned an error
+	outside     string // why the value is outside the stated universe ("" = inside)
 }
 
 func (r result) violation() bool {
-	return r.class == clsDifferent || r.class == clsPanicEncode || r.class == clsPanicDecode
+	return r.class == clsDifferent || r.class == clsPanicEncode || r.class == clsPanicDecode || r.class == clsErrInside
 }
 
 // group: outcome class as it appears in the signature ("" for non-violations).
@@ -451,8 +509,38 @@ func (r result) group() string {
 		return "panic"
 	case clsPanicEncode:
 		return "panic-encode"
+	case clsErrInside:
+		return clsErrInside
 	}
 	return ""
+}
+
+// family: panic | different | error ("" for non-violations)
+func (r result) family() string {
+	switch r.class {
+	case clsDifferent:
+		return "different"
+	case clsPanicDecode, clsPanicEncode:
+		return "panic"
+	case clsErrInside:
+		return "error"
+	}
+	return ""
+}
+
+// errResult: an error is acceptable only for a value the statement does not
+// promise a round trip for.
+func errResult(at string, err error, truth any, enc []byte) result {
+	r := result{why: at + ": " + err.Error(), errAt: at, enc: enc, outside: valueIn(truth)}
+	switch {
+	case r.outside == "":
+		r.class = clsErrInside
+	case at == "encode":
+		r.class = clsEncErr
+	default:
+		r.class = clsDecErr
+	}
+	return r
 }
 
 var roundtrips int64
@@ -470,17 +558,17 @@ func roundtrip(v, truth any) result {
 		return result{class: clsPanicEncode, why: "Marshal panicked: " + p.Value, frame: p.FirstFrame("github.com/cloudwego/eino/")}
 	}
 	if err != nil {
-		return result{class: clsEncErr, why: err.Error()}
+		return errResult("encode", err, truth, nil)
 	}
 	res := decodeOnce(b, truth)
 	// The decoder walks Go maps: when one field makes it return an error and a
 	// sibling makes it panic (or come back different), the outcome depends on
 	// the iteration order. An error is only accepted as the outcome when it is
 	// the outcome of every attempt.
-	if res.class == clsDecErr {
+	if res.errAt == "decode" {
 		for i := 0; i < decodeRetries; i++ {
 			r2 := decodeOnce(b, truth)
-			if r2.class != clsDecErr {
+			if r2.errAt != "decode" {
 				orderDependent++
 				r2.why += " (order dependent: other attempts on the same bytes returned the error: " + clip(res.why, 160) + ")"
 				return r2
@@ -504,7 +592,7 @@ func decodeOnce(b []byte, truth any) result {
 		return result{class: clsPanicDecode, why: "Unmarshal panicked: " + p.Value, enc: b, frame: p.FirstFrame("github.com/cloudwego/eino/")}
 	}
 	if err != nil {
-		return result{class: clsDecErr, why: err.Error(), enc: b}
+		return errResult("decode", err, truth, b)
 	}
 	eq, tc, why := cmpAny(truth, got)
 	if !eq {
@@ -555,7 +643,7 @@ func kids(s sub) []sub {
 				add(v.Field(i), "field", s.path+"."+v.Type().Field(i).Name)
 			}
 		}
-	case reflect.Slice:
+	case reflect.Slice, reflect.Array:
 		for i := 0; i < v.Len(); i++ {
 			add(v.Index(i), "elem", s.path+"["+strconv.Itoa(i)+"]")
 		}
@@ -577,11 +665,11 @@ func kids(s sub) []sub {
 func (s sub) test() result {
 	x := s.v.Interface()
 	r := roundtrip(x, x)
-	if r.class == clsDecErr {
+	if r.errAt == "decode" {
 		var firstDiff *result
 		for _, k := range kids(s) {
 			rk := k.test()
-			if !rk.violation() {
+			if !rk.violation() || rk.class == clsErrInside {
 				continue
 			}
 			if rk.class == clsDifferent && rk.typeChanged && k.typed && k.slot != "ptr" {
@@ -650,6 +738,9 @@ func keyCategory(t reflect.Type) string {
 // shapeClass names the feature of a minimal failing sub-value.
 func shapeClass(v reflect.Value) string {
 	t := v.Type()
+	if _, base := ptrDepth(t); isSchemaType(base) {
+		return "eino-schema-type"
+	}
 	switch v.Kind() {
 	case reflect.Ptr:
 		d, base := ptrDepth(t)
@@ -664,17 +755,84 @@ func shapeClass(v reflect.Value) string {
 			return "ptr-to-nil-ptr"
 		}
 		if isContainer(e.Type()) {
+			if e.Type().Name() != "" {
+				return "ptr-to-" + namedClass(e.Type())
+			}
 			return "ptr-to-container"
 		}
 		return "ptr-to-" + category(e.Type())
 	case reflect.Struct:
+		if hasUnexported(t) {
+			return "struct-with-unexported-field"
+		}
+		if hasJSONTags(t) {
+			return "tagged-struct"
+		}
 		return "struct"
+	case reflect.Array:
+		return "array"
 	case reflect.Slice:
+		if t.Name() != "" {
+			return namedClass(t)
+		}
 		return "slice-of-" + category(t.Elem())
 	case reflect.Map:
+		if t.Name() != "" {
+			return namedClass(t)
+		}
+		if t.Key().Kind() == reflect.Struct && hasJSONTags(t.Key()) {
+			return "map-with-tagged-struct-key"
+		}
 		return "map-with-" + keyCategory(t.Key()) + "-key"
+	case reflect.String:
+		if !validUTF8(v.String()) {
+			return "invalid-utf8-string"
+		}
 	}
 	return kindName(t)
+}
+
+func namedClass(t reflect.Type) string {
+	if !registeredSet[t] {
+		return "unregistered-named-container"
+	}
+	return "named-container"
+}
+
+func hasUnexported(t reflect.Type) bool {
+	for i := 0; i < t.NumField(); i++ {
+		if t.Field(i).PkgPath != "" {
+			return true
+		}
+	}
+	return false
+}
+
+// errShapeClass names the feature of the smallest sub-value (of a value inside
+// the universe) that the serializer refuses with an error.
+func errShapeClass(v reflect.Value) string {
+	t := v.Type()
+	d, base := ptrDepth(t)
+	if isSchemaType(base) {
+		return "eino-schema-type"
+	}
+	stripped := func(x reflect.Type) reflect.Type { _, b := ptrDepth(x); return b }
+	switch v.Kind() {
+	case reflect.Ptr:
+		if v.IsNil() && isContainer(base) {
+			return "nil-ptr-to-container"
+		}
+		_ = d
+	case reflect.Slice:
+		if isContainer(stripped(t.Elem())) {
+			return "container-of-containers"
+		}
+	case reflect.Map:
+		if isContainer(stripped(t.Elem())) {
+			return "container-of-containers"
+		}
+	}
+	return shapeClass(v)
 }
 
 type classification struct {
@@ -687,14 +845,17 @@ type classification struct {
 }
 
 // classify shrinks a failing value: first to the smallest sub-value that still
-// fails with the same outcome class as the whole (the carrier), then further to
+// fails with the same outcome family as the whole (the carrier), then further to
 // the smallest sub-value that fails at all on its own. The class is derived from
 // the shape of that minimal sub-value; for a panic whose minimal sub-value
 // only "changes type" on its own, the slot in the carrier where the value sits
 // (field / elem / mapvalue) is appended: that is where the decoder panics.
+// An error for a value inside the universe is shrunk to the smallest sub-value
+// that is refused on its own (step A only).
 func classify(root any, rootRes result) classification {
 	grp := rootRes.group()
-	isPanic := strings.HasPrefix(grp, "panic")
+	fam := rootRes.family()
+	isPanic := fam == "panic"
 	cur, _ := mkSub(reflect.ValueOf(root), "top", "$")
 	steps := 0
 	// step A
@@ -704,7 +865,7 @@ func classify(root any, rootRes result) classification {
 			k := k
 			steps++
 			r := k.test()
-			if r.violation() && strings.HasPrefix(r.group(), "panic") == isPanic {
+			if r.violation() && r.family() == fam {
 				next = &k
 				break
 			}
@@ -715,11 +876,15 @@ func classify(root any, rootRes result) classification {
 		cur = *next
 	}
 	carrier := cur
-	// step B
 	minRes := rootRes
 	if carrier.path != "$" {
 		minRes = carrier.test()
 	}
+	if fam == "error" {
+		cls := errShapeClass(cur.v)
+		return classification{signature: "C12/" + grp + "/" + cls, class: cls, minimal: cur, carrier: carrier, minRes: minRes, steps: steps}
+	}
+	// step B
 	firstSlot := ""
 	for {
 		// a panic is explained by a child in a typed slot that changes its type on
@@ -732,7 +897,7 @@ func classify(root any, rootRes result) classification {
 			k := k
 			steps++
 			r := k.test()
-			if !r.violation() {
+			if !r.violation() || r.class == clsErrInside {
 				continue
 			}
 			if followTypeChange && !(r.class == clsDifferent && r.typeChanged && k.typed) {
@@ -754,4 +919,32 @@ func classify(root any, rootRes result) classification {
 		cls += "-" + firstSlot
 	}
 	return classification{signature: "C12/" + grp + "/" + cls, class: cls, minimal: cur, carrier: carrier, minRes: minRes, steps: steps}
+}
+
+// findInsideViolation: the whole value is outside the universe and was refused
+// with an error (fine). The parts of it that are inside the universe must still
+// be handled on their own: the first such part that is refused (or panics, or
+// comes back different) is returned.
+func findInsideViolation(root any) (*sub, result) {
+	if root == nil {
+		return nil, result{}
+	}
+	cur, _ := mkSub(reflect.ValueOf(root), "top", "$")
+	return insideViolation(cur)
+}
+
+func insideViolation(s sub) (*sub, result) {
+	for _, k := range kids(s) {
+		k := k
+		if valueIn(k.v.Interface()) == "" {
+			if r := k.test(); r.violation() {
+				return &k, r
+			}
+			continue
+		}
+		if f, r := insideViolation(k); f != nil {
+			return f, r
+		}
+	}
+	return nil, result{}
 }
